@@ -9,6 +9,18 @@
 open Model
 open Conv
 
+(* the variant of the model that mirrors the code under test: one constant for writer and reader, see c05.ml *)
+let code_variant : variant = C05.code_variant
+let ser = C05.ser
+let ser_cmd = C05.ser_cmd
+let escape_id = C05.escape_id
+let name_ok = C05.name_ok
+let parse_expr_str = parse_expr_str code_variant
+let parse_get_value_response_str = parse_get_value_response_str code_variant
+let parse_unsat_assumptions_str = parse_unsat_assumptions_str code_variant
+let parse_command_str = parse_command_str code_variant
+let read_command = read_command code_variant
+
 let s2c = coqstr
 let c2s = ocamlstr
 let result = C05.result
@@ -91,14 +103,20 @@ let expr_matches_sval (rho : env) (e : expr) (v : sval) : bool =
 
 (* panics are keyed by what panicked, not by the line number alone *)
 let panic_class (loc : string) : string =
-  let has sub = try ignore (Str.search_forward (Str.regexp_string sub) loc 0); true with Not_found -> false in
-  if has "smt/parser.rs:247" then "end-of-tokens"
-  else if has "smt/parser.rs:1072" then "lexer-end-of-input"
-  else if has "smt/parser.rs:1043" then "empty-comment"
-  else if has "smt/parser.rs:235" then "string-literal"
-  else if has "smt/parser.rs:545" then "skip-expr-underflow"
-  else if has "smt/parser.rs:360" then "expect-on-parse-error"
-  else if has "smt/parser.rs:667" || has "smt/parser.rs:453" || has "smt/parser.rs:467" || has "smt/parser.rs:182" || has "smt/parser.rs:131" then "builder-assertion"
+  let has sub = try ignore (Str.search_forward (Str.regexp (Str.quote sub ^ "\\($\\|[^0-9]\\)")) loc 0); true with Not_found -> false in
+  let at lines = List.exists (fun l -> has (Printf.sprintf "smt/parser.rs:%d" l)) lines in
+  (* line numbers of smt/parser.rs: of /repo (Cur), of /repo with patches/0003..0015 applied in order (Fix) *)
+  let (eot, lexend, comment, strlit, skip, expect, builders) =
+    match code_variant with
+    | Cur -> ([247], [1072], [1043], [235], [545], [360], [667; 453; 467; 182; 131])
+    | Fix -> ([], [], [], [], [], [], [702; 479; 493; 131]) in
+  if at eot then "end-of-tokens"
+  else if at lexend then "lexer-end-of-input"
+  else if at comment then "empty-comment"
+  else if at strlit then "string-literal"
+  else if at skip then "skip-expr-underflow"
+  else if at expect then "expect-on-parse-error"
+  else if at builders then "builder-assertion"
   else if has "expr/context.rs" then "builder-assertion"
   else if has "expr/types.rs" then "builder-assertion"
   else loc
@@ -407,6 +425,7 @@ let handle_script id fs =
       match read_command top lines with
       | RcEof -> List.rev (`Eof :: acc)
       | RcPanic -> List.rev (`Panic :: acc)
+      | RcErr -> List.rev (`Err :: acc)
       | RcHang -> List.rev (`Hang :: acc)
       | RcCmd (c, top', rest) -> model_steps top' rest (`Cmd c :: acc) (n - 1) in
   let msteps = model_steps (symtab_of st) lines [] (List.length lines + 2) in
@@ -414,12 +433,13 @@ let handle_script id fs =
              List.for_all2 (fun m i ->
                  match m, i with
                  | `Cmd a, IOk b -> sexp_of_cmd a = sexp_of_cmd b
-                 | `Eof, IEof | `Panic, IPanic _ | `Hang, IHang -> true
+                 | `Eof, IEof | `Panic, IPanic _ | `Hang, IHang | `Err, IErr _ -> true
                  | _ -> false) msteps impl_steps in
   let show_i = String.concat " " (List.map (function IOk c -> sexp_of_cmd c | x -> cls_name x) impl_steps) in
-  let show_m = String.concat " " (List.map (function `Cmd c -> sexp_of_cmd c | `Eof -> "eof" | `Panic -> "panic" | `Hang -> "hang") msteps) in
+  let show_m = String.concat " " (List.map (function `Cmd c -> sexp_of_cmd c | `Eof -> "eof" | `Panic -> "panic" | `Err -> "err" | `Hang -> "hang") msteps) in
   let corr_detail = if same then "" else Printf.sprintf "impl=[%s] model=[%s]" show_i show_m in
-  (* oracle: the run ends with eof, never with a hang or a panic, and delivers one command per command line *)
+  (* oracle: the run never ends with a hang or a panic; it ends with an error only when the last command is a malformed variant
+     (field mutated); every intact command line is delivered *)
   let last = match List.rev impl_steps with x :: _ -> x | [] -> IEof in
   let ncmds = List.length (List.filter (function IOk _ -> true | _ -> false) impl_steps) in
   let expected = match Sexp.field_opt "ncmds" fs with Some [n] -> int_of_n (num n) | _ -> 0 in
@@ -427,9 +447,11 @@ let handle_script id fs =
   match last with
   | IHang -> result ~id ~status:"fail" ~key:"read_command:hang-at-end-of-input" ~detail ()
   | IPanic l -> result ~id ~status:"fail" ~key:(panic_key "read_command" l) ~detail ()
-  | IErr m -> result ~id ~status:"fail" ~key:"read_command:io-error" ~detail ()
   | _ ->
       let originals = List.map (fun c -> fst (C05.cmd_of_sexp c)) (match Sexp.field_opt "cmds" fs with Some l -> l | None -> []) in
+      (* the last command was replaced by a malformed variant (older case files: no originals recorded then) *)
+      let mutated = match Sexp.field_opt "mutated" fs with Some [n] -> int_of_n (num n) <> 0 | _ -> originals = [] in
+      let intact = not mutated && List.length originals = expected in
       let delivered = List.filter_map (function IOk c -> Some c | _ -> None) impl_steps in
       let names_ok = all_names_ok st &&
                      List.for_all (fun c -> match c with
@@ -442,7 +464,8 @@ let handle_script id fs =
             match o, d with
             | CSetInfo (k, v), CSetOption (k', v') -> k = k' && v = v'     (* the writer's own defect (C05) *)
             | _ -> cmd_equiv d o) delivered originals) in
-      if ncmds < expected && names_ok then result ~id ~status:"fail" ~key:"read_command:command-lost" ~detail ()
+      if (match last with IErr _ -> intact && names_ok | _ -> false) then result ~id ~status:"fail" ~key:"read_command:error-on-intact-script" ~detail ()
+      else if ncmds < expected && names_ok then result ~id ~status:"fail" ~key:"read_command:command-lost" ~detail ()
       else if altered && names_ok && ncmds = expected then result ~id ~status:"fail" ~key:"read_command:command-altered" ~detail ()
       else if same then result ~id ~status:"ok" ~key:"script" ()
       else result ~id ~status:"diff" ~key:"script" ~detail:corr_detail ()
